@@ -96,6 +96,8 @@ theorem freq_value (f0 f1 f2 : Nat) (h0 : f0 < 256) (h1 : f1 < 256) (h2 : f2 < 2
   unfold Gen.MacCmdFn.Frequency.value
   simp [Rt.idx, shl16 f2 h2, shl8 f1 h1, freqOf]
   simp (disch := omega) only [Rt.ck_u32, Option.bind_some]
+  -- the summands in any order (harmless rewrite h3)
+  try (simp only [Option.some.injEq]; omega)
 
 /-- `ChannelMask::<2>::new_from_raw` on two octets: the array of those two -/
 theorem mask2 (b1 b2 : Int) : Gen.MacCmdFn.ChannelMask.new_from_raw 2 [b1, b2] = some ⟨[b1, b2]⟩ := by
@@ -128,7 +130,7 @@ theorem view_rx_param (d f0 f1 f2 : Nat) (h0 : f0 < 256) (h1 : f1 < 256) (h2 : f
     view (.RXParamSetupReq ⟨ints [d, f0, f1, f2]⟩) = some (decCmd (0x05, [d, f0, f1, f2])) := by
   have hf := freq_value f0 f1 f2 h0 h1 h2
   simp [view, decCmd, ints, Gen.MacCmdFn.RXParamSetupReqPayload.dl_settings, Gen.MacCmdFn.RXParamSetupReqPayload.frequency,
-    Gen.MacCmdFn.DLSettings.new, Gen.MacCmdFn.Frequency.new_from_raw, Rt.idx, Rt.sliceFrom, hf]
+    Gen.MacCmdFn.DLSettings.new, Gen.MacCmdFn.Frequency.new_from_raw, Rt.idx, Rt.sliceFrom, Rt.slice, hf]
 
 theorem view_new_channel (i f0 f1 f2 r : Nat) (h0 : f0 < 256) (h1 : f1 < 256) (h2 : f2 < 256) (hr : r < 256) :
     view (.NewChannelReq ⟨ints [i, f0, f1, f2, r]⟩) = some (decCmd (0x07, [i, f0, f1, f2, r])) := by
